@@ -989,13 +989,14 @@ def releaseStep (au : String) (_ : PUnit) : M (ForInStep PUnit) := do
     and the abstract post-states agree up to the outgoing events -/
 theorem release_loop (hν : Function.Injective ν) : ∀ (l : List String) (vm vm' : VM), WFA vm → WFI vm → WFG vm →
     forIn l PUnit.unit releaseStep vm = .ok PUnit.unit vm' →
-    ∃ t, stopActions (absVM ν φ vm) (l.map ν) = .ok t ∧ absVM ν φ vm' = so t ∧ WFA vm' ∧ vm'.ixs = vm.ixs ∧ vm'.r.fx = vm.r.fx
+    ∃ t, stopActions (absVM ν φ vm) (l.map ν) = .ok t ∧ absVM ν φ vm' = so t ∧ WFA vm' ∧ vm'.ixs = vm.ixs ∧ vm'.r.fx = vm.r.fx ∧
+      NamesLe vm vm'
   | [], vm, vm', hw, _, _, h => by
     have : vm' = vm := by
       rw [List.forIn_nil] at h
       cases h; rfl
     subst this
-    exact ⟨absVM ν φ vm', rfl, rfl, hw, rfl, rfl⟩
+    exact ⟨absVM ν φ vm', rfl, rfl, hw, rfl, rfl, NamesLe.refl _⟩
   | au :: l, vm, vm', hw, hi, hg, h => by
     rw [List.forIn_cons] at h
     simp only [releaseStep, bind, EStateM.bind] at h
@@ -1007,7 +1008,7 @@ theorem release_loop (hν : Function.Injective ν) : ∀ (l : List String) (vm v
       have hg1 : WFG vm1 := fun k x hx => by
         obtain ⟨y, hy, e⟩ := hn1 k x hx
         rw [e]; exact hg k y hy
-      obtain ⟨t2, hs2, habs2, hw2, hix2, hfx2⟩ := release_loop hν l vm1 vm' hw1 hi1 hg1 h'
+      obtain ⟨t2, hs2, habs2, hw2, hix2, hfx2, hn2⟩ := release_loop hν l vm1 vm' hw1 hi1 hg1 h'
       rw [habs1] at hs2
       -- transport along `so`
       have hso := stopActions_so (l.map ν) t1
@@ -1017,7 +1018,7 @@ theorem release_loop (hν : Function.Injective ν) : ∀ (l : List String) (vm v
       | ok t3 =>
         rw [hs3] at hso
         simp only [Except.ok.injEq] at hso
-        refine ⟨t3, ?_, ?_, hw2, hix2.trans hix1, hfx2.trans hfx1⟩
+        refine ⟨t3, ?_, ?_, hw2, hix2.trans hix1, hfx2.trans hfx1, hn1.trans hn2⟩
         · simp only [List.map_cons, stopActions, hs1]; exact hs3
         · rw [habs2, ← hso]
 
@@ -1089,6 +1090,30 @@ theorem findInst_setFlowStatus (s : IState) (f f' : FUid) (st : FlowStatus) :
     findInst (step s (.setFlowStatus f st)) f' = (findInst s f').map fun i => if i.uid = f then { i with status := st } else i := by
   simp only [step]
   exact findInst_modifyInst s f f' _ (fun _ => rfl)
+
+theorem modifyInst_uids (s : IState) (f : FUid) (g : Inst → Inst) (hg : ∀ i, (g i).uid = i.uid) :
+    (modifyInst s f g).insts.map (·.uid) = s.insts.map (·.uid) := by
+  unfold modifyInst
+  simp only [List.map_map]
+  apply List.map_congr_left
+  intro i _
+  simp only [Function.comp]
+  split
+  · exact hg i
+  · rfl
+
+theorem dropHeads_uids (s : IState) (f : FUid) : (step s (.dropHeads f)).insts.map (·.uid) = s.insts.map (·.uid) := by
+  simp only [step]
+  cases findInst s f with
+  | none => rfl
+  | some i0 =>
+    simp only
+    rw [modifyInst_uids _ f (fun i => { i with heads := [] }) (fun _ => rfl), foldl_rawRemove_insts]
+
+theorem setFlowStatus_uids (s : IState) (f : FUid) (st : FlowStatus) :
+    (step s (.setFlowStatus f st)).insts.map (·.uid) = s.insts.map (·.uid) := by
+  simp only [step]
+  exact modifyInst_uids s f (fun i => { i with status := st }) (fun _ => rfl)
 
 /-- `find?` returns an element satisfying the predicate: the instance found for `f'` has uid `f'` -/
 theorem findInst_uid (s : IState) (f' : FUid) (i : Inst) (h : findInst s f' = some i) : i.uid = f' := by
